@@ -538,6 +538,12 @@ func GenerateFieldDeclaration(p Printer, field *protogen.Field) {
 	jsonName := field.Desc.JSONName()
 	tsType := TSFieldType(field)
 
+	// empty_behavior=NULL: an empty child message is sent as null
+	if field.Desc.Kind() == protoreflect.MessageKind && !field.Desc.IsList() && !field.Desc.IsMap() &&
+		annotations.GetEmptyBehavior(field) == http.EmptyBehavior_EMPTY_BEHAVIOR_NULL {
+		tsType += " | null"
+	}
+
 	//nolint:gocritic // if-else chain is clearer than switch for distinct boolean checks
 	if annotations.IsNullableField(field) {
 		p("  %s: %s | null;", jsonName, tsType)
